@@ -39,8 +39,9 @@ func (t RangeToken) String() string {
 // Category describes a class of AST nodes that can be treated uniformly.
 // E.g. statements or expressions.
 type Category struct {
-	Name  string
-	Types []string
+	Name      string
+	Types     []string
+	Synthetic bool // TokenSet, instantiated by ExtractTypes (not declared by the grammar)
 }
 
 func (c Category) String() string {
@@ -483,7 +484,7 @@ func (c *typeCollector) resolveCategories() {
 			types.Set(c.tokenTypes[t])
 		}
 		cats = append(cats, closure.Add(types.Slice(nil)))
-		c.out.Categories = append(c.out.Categories, Category{Name: "TokenSet"})
+		c.out.Categories = append(c.out.Categories, Category{Name: "TokenSet", Synthetic: true})
 	}
 
 	var target *set.FutureSet
